@@ -15,7 +15,9 @@ CONSTANTS Streams, W0, C0, MF0, DataSizes, PadSizes, Incs, InitWins, MaxFrames,
           BugContES,      \* TRUE: model relay.go:584 (continuation always END_STREAM)
           BugPadCredit,   \* TRUE: model relay.go:496 (credit payload only)
           EncodeAtEnqueue, \* TRUE: header blocks are HPACK-encoded when queued (as the code did), not when written
-          BugZeroCostHeld  \* TRUE: relay.go:562 as found - a frame that is not flow-controlled is held back while a window is negative
+          BugZeroCostHeld, \* TRUE: relay.go:562 as found - a frame that is not flow-controlled is held back while a window is negative
+          SplitOnlyAtEnqueue \* TRUE: as found - DATA is cut to the receiver's max frame size when queued and never again;
+                             \* FALSE: the writer cuts a frame that has waited to the limit in force when it is written
 
 VARIABLES q, sw, bufs, cw, iw, mf, out, cont,      \* relay (flowMu-protected + continuation state)
           ctl,                                     \* B -> relay control frames in flight
@@ -66,7 +68,7 @@ Debit(em, s1, c1, b1, m1) ==
   ELSE LET f == Head(em) IN
        Debit(Tail(em), [s1 EXCEPT ![f.s] = @ - FC(f)], c1 - FC(f),
              b1 \/ (FC(f) > 0 /\ (FC(f) > s1[f.s] \/ FC(f) > c1)),
-             m1 \/ FC(f) > mf)
+             m1 \/ (Eager /\ SplitOnlyAtEnqueue /\ FC(f) > mf))     \* Eager: emitted = written
 
 \* logical stream content, run-length encoded: [k |-> "b", n |-> octets] for DATA (adjacent runs merge),
 \* [k |-> "h"] per header list, [k |-> "ES"], [k |-> "r"]
@@ -186,10 +188,14 @@ BRecvGoAway == /\ goneAway = "sent" /\ goneAway' = "seen"
                /\ UNCHANGED <<rel, iw, mf, cont, ctl, ledg, aled, sentLog, dlvLog, nSend, nCtl, hp, pings>>
 
 (* ---- writer goroutine: output channel -> B (relay.go:165-184) ---- *)
+\* what the writer puts on the wire next: a DATA frame that has waited is cut to the limit now in force
+\* (queued_frames.go queuedDataFrame.send)
+Oversize(f) == f.t = "D" /\ f.n > mf
+HeadPiece == LET f == Head(out) IN IF Oversize(f) /\ ~SplitOnlyAtEnqueue THEN [f EXCEPT !.n = mf, !.es = FALSE] ELSE f
 WriterSend ==
   /\ out # <<>>
-  /\ LET f == Head(out) IN
-       /\ out' = Tail(out)
+  /\ LET f == HeadPiece IN
+       /\ out' = IF f = Head(out) THEN Tail(out) ELSE << [Head(out) EXCEPT !.n = @ - mf] >> \o Tail(out)
        /\ dlvLog' = [dlvLog EXCEPT ![f.s] =
              (CASE f.t = "D" -> AddEl(@, "b", f.n, f.es)
                 [] f.t = "H" -> AddEl(@, "h", 0, f.es)
@@ -197,7 +203,8 @@ WriterSend ==
                 [] f.t = "PP" -> AddEl(@, "pp", f.n, FALSE))]
        /\ dlvOrder' = IF f.t \in {"H", "PP"} THEN Append(dlvOrder, f.h) ELSE dlvOrder
        /\ encOrder' = IF f.t \in {"H", "PP"} /\ ~EncodeAtEnqueue THEN Append(encOrder, f.h) ELSE encOrder
-  /\ UNCHANGED <<q, sw, bufs, cw, iw, mf, cont, ctl, ledg, aled, sentLog, nSend, nCtl, hcount, conn>>
+       /\ badMF' = (badMF \/ Oversize(f))
+  /\ UNCHANGED <<q, sw, bufs, cw, iw, mf, cont, ctl, gS, gC, bad, aled, sentLog, nSend, nCtl, hcount, conn>>
 
 (* ---- receiver B issues control frames ---- *)
 BCtl(f) ==
